@@ -250,7 +250,7 @@ def run_rule(res, facts, tier):
     seen = set()
     allpaths = paths(tier)
     if tier != 'thorough':
-        allpaths = [p for i, p in enumerate(allpaths) if len(p[1]) == 1 or i % 6 == 0 or any('[' in st for _, st in p[1])]
+        allpaths = [p for i, p in enumerate(allpaths) if len(p[1]) == 1 or i % 12 == 0 or (any('[' in st for _, st in p[1]) and i % 3 == 0)]
     for lead, steps in allpaths:
         toks = tokens_of(lead, steps)
         if tuple(toks) in seen:
